@@ -20,7 +20,7 @@ out because it does not terminate (C07's domain).
 Oracle
   frame       deep observation (purity.deep_obs) identical before and after
               every (state, query) -- each query is asked twice in a row; the
-              observation is taken after every 16 (thorough: 4) queries and a
+              observation is taken after every 16 (thorough: 8) queries and a
               difference is located by re-running that chunk on a fresh
               replica with an observation after every query
   twice       canonical result of q asked twice is identical
@@ -36,7 +36,8 @@ Oracle
               (quick); thorough adds q1 = one instance of EVERY query kind
               (record kind x operation x field datatype) against the
               families of the same receiver, the Gfa-level probes and str()
-              of every other line
+              of every other line (on depth-3 history states only the
+              latter, for the time budget)
   sequence-frame  deep observation unchanged at the end of every sequence
   text-normalised-on-read  (lazy non-canonical corpus only) a frame violation
               whose new text is exactly the text the same document has when
@@ -120,8 +121,9 @@ def doc_items(quick):
     for ts in tagsets:
       if t[2].startswith("#") and ts:
         continue
-      for vl in (vlevels if len(ts) < nt else (0, 1, 3) if quick else
-                 (0, 1, 2, 3)):
+      single = 0 < len(ts) < nt
+      for vl in (((0, 1) if single else (0, 1, 3)) if quick else
+                 ((0, 1, 3) if single else (0, 1, 2, 3))):
         lines = list(t[3]) + [corpus19.line_text(t[0], ts)]
         items.append({"kind": "doc", "name": t[0], "version": t[1],
                       "vlevel": vl, "lines": lines})
@@ -748,7 +750,7 @@ def check_state(item):
 def _check_state(item, res):
   run = StateRun(item, res)
   tier_quick = item.get("tier", "quick") == "quick"
-  chunk = 16 if tier_quick else 4
+  chunk = 16 if tier_quick else 8
   try:
     gm, tabm = run.fresh()
   except gfapy.Error as e:
@@ -890,6 +892,11 @@ def _check_state(item, res):
   plan = [(fams, fams)]
   if not tier_quick:
     plan.append((kinds, fams))
+    if item["kind"] == "hist" and len(item["hist"]) >= 3:
+      # budget: the family x family square is run on every state of depth
+      # <= 2 and on every document; depth-3 states get kind x probes only
+      plan = [(kinds, fams)]
+      fset = set()
   need = sorted(set(x for a, b in plan for x in b))
   r0 = {}
   for qi in need:
